@@ -5,6 +5,7 @@ use super::entries::{GraphSpec, E_QUERIES};
 use crate::engine::{replay_case, CaseReport, Run, Verdict};
 use crate::gen::chaos;
 use crate::model::AObj;
+use proptest::prelude::*;
 use serde_json::Value;
 use std::collections::{BTreeMap, BTreeSet};
 
@@ -84,9 +85,26 @@ fn ill_typed(g: &GraphSpec) -> bool {
 }
 
 pub fn check(case: &GraphSpec) -> Verdict {
+    check_in(crate::worker::Flavour::Release, case)
+}
+
+/// the wrapped graph, queried in the worker compiled without optimisation (2 MiB case stack)
+#[derive(Clone, Debug, serde::Serialize, serde::Deserialize)]
+pub struct UnoptimisedCase {
+    pub unoptimised: GraphSpec,
+}
+
+pub fn check_unoptimised(case: &UnoptimisedCase) -> Verdict {
+    check_in(crate::worker::Flavour::Unoptimised, &case.unoptimised)
+}
+
+fn check_in(flavour: crate::worker::Flavour, case: &GraphSpec) -> Verdict {
     let mut rep = CaseReport::new();
     let payload = serde_json::to_vec(case).unwrap();
-    let o = crash_check("C13", E_QUERIES, &payload, &mut rep)?;
+    let o = super::crash::crash_check_in(flavour, "C13", E_QUERIES, &payload, &mut rep)?;
+    rep.label_if(flavour == crate::worker::Flavour::Unoptimised, "unoptimised-build");
+    rep.label_if(case.objects.len() >= 100, "objects>=100");
+    rep.label_if(case.objects.len() >= 1000, "objects>=1000");
     let cyc = has_cycle(case);
     let ill = ill_typed(case);
     rep.label_if(cyc, "cycle-through-followed-key");
@@ -95,19 +113,44 @@ pub fn check(case: &GraphSpec) -> Verdict {
     if let crate::worker::Outcome::Ok { summary, .. } = &o {
         rep.label_if(!summary.starts_with("pages=0 "), "has-pages");
     }
-    rep.nontrivial = cyc && ill;
+    rep.nontrivial = (cyc && ill) || case.objects.len() >= 100;
     Ok(rep)
 }
 
 pub fn run(run: &mut Run) {
-    run.rule = "cases: typed-chaos documents: a plausible skeleton (catalog, two-level page tree, resources, Type0 font with ToUnicode, outline chain, name tree, image XObject, content stream) whose entries are overwritten by 0..11 chaos mutations binding any key the query code reads to a value of random kind (existing / dangling / self references, arrays of length 0..3, integer extremes, names from the vocabulary the code matches on, strings with BOMs and odd lengths, nested dictionaries) plus extra random objects. Every public read-only query (catalog, pages, page content/resources/fonts/annotations/images, text extraction, outlines, named destinations, table of contents, font encodings, stream decoding, dereference, datetime) is called for every object id inside the isolated worker (8 MiB stack, allocation limits, watchdog). Oracle: totality (no panic, abort, stack overflow, confirmed hang, oversized allocation). non-trivial = a reference cycle through a key a walker follows AND an ill-typed value under such a key; distinct by case hash.".into();
+    run.rule = "cases: typed-chaos documents: a plausible skeleton (catalog, two-level page tree, resources, Type0 font with ToUnicode, outline chain, name tree, image XObject, content stream) whose entries are overwritten by 0..11 chaos mutations binding any key the query code reads to a value of random kind (existing / dangling / self references, arrays of length 0..3, integer extremes, names from the vocabulary the code matches on, strings with BOMs and odd lengths, nested dictionaries) plus extra random objects. Every public read-only query (catalog, pages, page content/resources/fonts/annotations/images, text extraction, outlines, named destinations, table of contents, font encodings, stream decoding, dereference, datetime) is called for every object id inside the isolated worker (8 MiB stack, allocation limits, watchdog). Oracle: totality (no panic, abort, stack overflow, confirmed hang, oversized allocation). Campaign 'long-chains': a valid skeleton plus 1..3000 objects linked through one followed key (/Parent above a page, nested /Pages through /Kids, outline siblings through /Next, outline nesting through /First, name-tree nesting through /Kids), ending properly, dangling, in a cycle or in a self-link. Campaign 'unoptimised-build': both generators against a worker compiled without optimisation (dev profile, 2 MiB case stack). non-trivial = (a reference cycle through a key a walker follows AND an ill-typed value under such a key) or >= 100 objects; distinct by case hash.".into();
     run.assumptions = vec!["a query answering Err/None/empty is a pass; only the process-level outcome is judged".into(), "watchdog 10 s, confirmed alone with 60 s before a hang is reported".into()];
     run.replay_known_demos(replay);
-    let n = run.tier.pick(20_000, 1_500_000);
+    let n = run.tier.pick(60_000, 1_500_000);
     run.campaign("chaos-graphs", chaos::graph_strategy, n, check, |_c, _v| None);
+    // depth as a generated quantity: up to 3000 objects linked through one followed key
+    run.campaign("long-chains", chaos::chain_strategy, run.tier.pick(400, 20_000), check, |_c, _v| None);
+    // both generators against lopdf compiled without optimisation (what `cargo test` and debug builds of a caller run)
+    let unopt = || prop_oneof![2 => chaos::graph_strategy(), 1 => chaos::chain_strategy()].prop_map(|g| UnoptimisedCase { unoptimised: g });
+    run.campaign("unoptimised-build", unopt, run.tier.pick(500, 40_000), check_unoptimised, |_c, _v| None);
+    crate::engine::libfuzzer::phase(run, super::fuzzdec::TARGETS_C13, &|_entry, payload| serde_json::to_value(RawFileCase { raw_file: crate::model::B(payload.to_vec()) }).unwrap());
     flush_known(run);
 }
 
+/// a file found by the libFuzzer target: loaded, then queried
+#[derive(Clone, Debug, serde::Serialize, serde::Deserialize)]
+pub struct RawFileCase {
+    pub raw_file: crate::model::B,
+}
+
+pub fn check_raw(case: &RawFileCase) -> Verdict {
+    let mut rep = CaseReport::new();
+    crash_check("C13", super::entries::E_FILEQUERIES, &case.raw_file.0, &mut rep)?;
+    rep.nontrivial = true;
+    Ok(rep)
+}
+
 pub fn replay(file: &Value) -> Result<Verdict, String> {
+    if let Ok(raw) = replay_case::<RawFileCase>(file) {
+        return Ok(check_raw(&raw));
+    }
+    if let Ok(u) = replay_case::<UnoptimisedCase>(file) {
+        return Ok(check_unoptimised(&u));
+    }
     Ok(check(&replay_case::<GraphSpec>(file)?))
 }
